@@ -1,6 +1,6 @@
 #!/bin/sh
 # verify_seed.sh <PID> <k>: confirm a sub-agent's seeded change in its scratch worktree, then store it under /verif/seeded
-PID=$1; K=$2; ROUND=${3:-1}; WT=/tmp/wt/$PID; if [ "$ROUND" = 2 ]; then SRC=/tmp/mut2/$PID/$K; DST=/verif/seeded/$PID-$((K+2)); else SRC=/tmp/mut/$PID/$K; DST=/verif/seeded/$PID-$K; fi
+PID=$1; K=$2; ROUND=${3:-1}; WT=/tmp/wt/$PID; if [ "$ROUND" = 3 ]; then SRC=/tmp/mut3/$PID/$K; DST=/verif/seeded/$PID-$((K+4)); elif [ "$ROUND" = 2 ]; then SRC=/tmp/mut2/$PID/$K; DST=/verif/seeded/$PID-$((K+2)); else SRC=/tmp/mut/$PID/$K; DST=/verif/seeded/$PID-$K; fi
 set -e
 git -C $WT checkout -q -- . ; git -C $WT status --short | grep -q . && { echo "worktree dirty"; exit 1; }
 DES="--deselect test/test_drawing.py::test_draw_eggs --deselect test/test_drawing.py::test_pregroup_draw --deselect test/test_tensor.py::test_Tensor_scalar --deselect test/test_zx.py::test_backnforth_pyzx --deselect test/test_zx.py::test_circui2zx --deselect test/test_zx.py::test_from_pyzx_errors --deselect test/test_zx.py::test_grad_to_pyzx --deselect test/test_zx.py::test_to_pyzx --deselect test/test_zx.py::test_to_pyzx_errors --deselect test/test_zx.py::test_to_pyzx_scalar"
